@@ -12,7 +12,7 @@ RULE = (
     "crops with B batches for every (N <= 2B+1, batchsize | num_batches) "
     "giving that B, every non-empty proper subset of finished batches, "
     "shuffle off/on, reaped raw / as Dataset / as DataFrame, result kinds "
-    "number, array, bool, str, tuple, Dataset; each case: refused without "
+    "number, float and integer array, bool, str, tuple, Dataset; each case: refused without "
     "allow_incomplete, partial reap position by position, tree untouched, "
     "then grow the rest and full reap; non-trivial = every case (each has "
     ">= 1 finished and >= 1 missing batch)"
@@ -25,7 +25,8 @@ ASSUMPTIONS = [
 ]
 
 FORMS = [("raw", "num"), ("raw", "array"), ("raw", "bool"), ("raw", "str"),
-         ("raw", "tuple2"), ("raw", "dataset"), ("ds", "num"), ("ds", "array"),
+         ("raw", "tuple2"), ("raw", "dataset"), ("raw", "iarray"),
+         ("ds", "iarray"), ("ds", "num"), ("ds", "array"),
          ("ds", "bool"), ("ds", "str"), ("ds", "dataset"), ("df", "num"),
          ("df", "str")]
 
@@ -95,7 +96,7 @@ def check_case(case):
     before = fsseam.tree_hash(d)
 
     dskw = {}
-    if kind == "array":
+    if kind in ("array", "iarray"):
         dskw = dict(var_names="out", var_dims={"out": ["t"]},
                     var_coords={"t": [0, 1, 2]})
     elif kind == "dataset":
@@ -172,7 +173,7 @@ def check_case(case):
                     if not cmp.leaf_missing(v):
                         probs.append("slot %r of an unfinished batch holds %r"
                                      % (kw, v))
-                    elif kind in ("array", "tuple2") and (
+                    elif kind in ("array", "iarray", "tuple2") and (
                             np.shape(v) != np.shape(want)):
                         probs.append("placeholder shape %r, real %r"
                                      % (np.shape(v), np.shape(want)))
@@ -184,7 +185,7 @@ def check_case(case):
                     continue
                 if kind == "dataset":
                     wv = {v_: want[v_].values for v_ in want.data_vars}
-                elif kind == "array":
+                elif kind in ("array", "iarray"):
                     wv = {"out": np.asarray(want)}
                 else:
                     wv = {"out": want}
